@@ -16,9 +16,12 @@ an independent Python cost function (`Pricer`, leaf-set definition): cost(real p
 the minimum over all trees (search_outer) / all outer-product-free trees (otherwise).
 """
 
+import contextlib
 import json
 import os
+import signal
 import sys
+import time
 
 import cotengra as ctg  # noqa: F401  (puts /repo first, see common)
 from cotengra.pathfinders import path_basic as pb
@@ -70,7 +73,7 @@ ASSUMPTIONS = [
     "networks meet the property's guard: connected, no repeated index in a tensor, no index confined to "
     "one tensor and absent from the output, no two tensors with equal index sets, no scalars, no index on "
     "all tensors (so n >= 3); sizes >= 1; initial cost_cap a positive integer",
-    "exhaustive enumeration for n <= 7 (quick: n <= 6 mostly); cotengrust not installed (pure-python path)",
+    "exhaustive enumeration for 3 <= n <= 8 in the quick tier and n <= 9 in the thorough tier; cotengrust not installed (pure-python path)",
 ]
 RULE = ("random connected guarded networks (spanning-tree bonds + extra bond/hyper/output/hyper-output "
         "indices, sizes 1-7) x objectives {flops,max,size,write,combo,limit,combo-k,limit-k} x "
@@ -285,6 +288,32 @@ def brute_force(net, objs):
 # ----------------------------------------------------------------------------- the real code
 
 
+class CallTimeout(Exception):
+    pass
+
+
+@contextlib.contextmanager
+def call_timeout(seconds):
+    """Bound one call of the real code (the real `while` loop never ends if nothing passes the
+    sieve). Nests inside the check's overall SIGALRM budget and restores it afterwards."""
+    def _h(sig, frm):
+        raise CallTimeout()
+    prev = signal.getsignal(signal.SIGALRM)
+    remaining = signal.getitimer(signal.ITIMER_REAL)[0]
+    signal.setitimer(signal.ITIMER_REAL, 0)
+    t0 = time.time()
+    signal.signal(signal.SIGALRM, _h)
+    signal.setitimer(signal.ITIMER_REAL, seconds)
+    try:
+        yield
+    finally:
+        signal.setitimer(signal.ITIMER_REAL, 0)
+        signal.signal(signal.SIGALRM, prev)
+        if remaining:
+            signal.setitimer(signal.ITIMER_REAL, max(0.05, remaining - (time.time() - t0)))
+
+
+
 def ssa_to_tree(ssa_path, n):
     """nested-list tree of an ssa path of pairwise steps; None when malformed / incomplete"""
     nodes = {i: i for i in range(n)}
@@ -363,7 +392,8 @@ def check_stepcost(ctx, drv, rng):
     net = {"inputs": [], "output": [ix for ix in ixs for _ in range(app[ix])],
            "sizes": sorted([k, v] for k, v in sizes.items())}
     a, b = rng.randint(0, 50), rng.randint(0, 50)
-    kind, factor = rng.choice(BASE_OBJS + [(k, f) for k in ("combo", "limit") for f in FACTORS])
+    kind = rng.choice(["flops", "max", "size", "write", "combo", "limit"])
+    factor = rng.choice([None] + FACTORS) if kind in ("combo", "limit") else None
     applist = [app.get(i, 0) for i in range(9)]
     sizelist = [sizes.get(i, 1) for i in range(9)]
     try:
@@ -396,7 +426,20 @@ def configs_for(rng, tier):
 
 def oracle(net, kind, factor, outer, cap, bf_best, via="function"):
     """implementation-side verdict for one configuration. Returns (ok, info)."""
-    tree = real_optimal(net, kind, factor, outer, cap, via=via)
+    n = len(net.inputs)
+    limit = 10 if n <= 7 else (30 if n == 8 else 150)
+    try:
+        try:
+            with call_timeout(limit):
+                tree = real_optimal(net, kind, factor, outer, cap, via=via)
+        except CallTimeout:
+            # confirm with a doubled limit before calling it non-termination (machine load)
+            with call_timeout(2 * limit):
+                tree = real_optimal(net, kind, factor, outer, cap, via=via)
+    except CallTimeout:
+        return False, {"kind": "no-termination", "limit_s": 2 * limit}
+    except (ValueError, KeyError, IndexError, TypeError, AssertionError) as e:
+        return False, {"kind": "raises", "error": type(e).__name__ + ": " + str(e)[:200]}
     if tree is None or sorted(gen.tree_leaves(tree)) != list(range(len(net.inputs))):
         return False, {"kind": "malformed-path", "tree": tree}
     pr = Pricer(net)
@@ -424,10 +467,10 @@ def check_net(ctx, drv, net, rng, spy_tables=False):
             if outer is False and bf["all"][q] < bf["opf"][q]:
                 ctx.count("outer_product_strictly_better")
             for cap in caps:
-                if ctx.time_left() < 5:
+                if ctx.time_left() < 5 or ctx.violations >= 1:
                     return
-                case = {"net": netj, "obj": [kind, factor], "outer": outer, "cap": cap}
                 via = rng.choice(["function", "function", "class", "linear"])
+                case = {"net": netj, "obj": [kind, factor], "outer": outer, "cap": cap, "via": via}
                 ctx.case(case, nontrivial=(n >= 4 and worst > best))
                 ctx.count("obj:" + kind)
                 ctx.count("via:" + via)
@@ -480,8 +523,13 @@ def check_net(ctx, drv, net, rng, spy_tables=False):
 
 
 def report(ctx, case, info):
-    small = shrink(case)
-    ctx.violation({"site": "optimize_optimal", "kind": info["kind"]},
+    sig = {"site": "optimize_optimal", "kind": info["kind"]}
+    key = json.dumps(sig, sort_keys=True, default=str)
+    ctx.count("failing_cases")
+    if key in ctx._reported:      # same signature already reported in this run: do not shrink again
+        return
+    small = shrink(case, budget=30 if ctx.time_left() > 120 else 5)
+    ctx.violation(sig,
                   {"case": small, "original": case if small != case else None,
                    "observed": {k: v for k, v in info.items() if k != "kind"}},
                   "optimize_optimal(minimize=%s, search_outer=%s, cost_cap=%s): %s"
@@ -498,7 +546,8 @@ def fails(case):
     if best is None:
         return False
     try:
-        ok, _ = oracle(net, kind, factor, case["outer"], case["cap"], best)
+        ok, _ = oracle(net, kind, factor, case["outer"], case["cap"], best,
+                       via=case.get("via", "function"))
     except Exception:
         return False
     return not ok
@@ -574,13 +623,16 @@ def run(ctx, drv):
     replay_corpus(ctx)
     rng = ctx.rng
     quick = ctx.tier == "quick"
-    for _ in range(300 if quick else 3000):
+    for _ in range(1200 if quick else 12000):
         check_stepcost(ctx, drv, rng)
-    plan = ([(3, 5)] * 14 + [(6, 6)] * 6 + [(7, 7)] * 2) if quick else \
-        ([(3, 5)] * 120 + [(6, 6)] * 60 + [(7, 7)] * 24)
+    plan = ([(3, 3)] * 8 + [(4, 4)] * 25 + [(5, 5)] * 37 + [(6, 6)] * 40 + [(7, 7)] * 24 + [(8, 8)] * 2) if quick else \
+        ([(3, 3)] * 50 + [(4, 4)] * 250 + [(5, 5)] * 400 + [(6, 6)] * 500 + [(7, 7)] * 300 + [(8, 8)] * 30 + [(9, 9)] * 2)
+    rng.shuffle(plan)
     for k, (lo, hi) in enumerate(plan):
         if ctx.time_left() < 20:
             ctx.count("plan_cut_short")
+            break
+        if ctx.violations >= 1:
             break
         net = rand_guarded_net(rng, lo, hi)
         check_net(ctx, drv, net, rng, spy_tables=(k % 3 == 0))
@@ -594,7 +646,7 @@ def search(ctx):
     for k in range(400):
         if ctx.time_left() < 10 or found:
             break
-        net = rand_guarded_net(rng, 3, 6 if k % 5 else 7)
+        net = rand_guarded_net(rng, 3, 6 if k % 5 else 7, dims=(1, 2, 3, 4, 5, 7, 9))
         objs, caps = configs_for(rng, ctx.tier)
         bf = brute_force(net, objs)
         for q, (kind, factor) in enumerate(objs):
@@ -620,7 +672,8 @@ def replay(ctx, obj):
     kind, factor = case["obj"]
     bf = brute_force(net, [(kind, factor)])
     best = bf["all"][0] if case["outer"] else bf["opf"][0]
-    ok, info = oracle(net, kind, factor, case["outer"], case["cap"], best)
+    ok, info = oracle(net, kind, factor, case["outer"], case["cap"], best,
+                      via=case.get("via", "function"))
     if not ok:
         print("# replay:", info)
     return ok
